@@ -30,7 +30,7 @@ class C02(Spec):
     prop = "C02"
     coq_targets = ["Props/C02.vo"]
     prop_module = "Props.C02"
-    theorems = []
+    theorems = ['C02_reference_is_X691', 'C02_reference_is_X691_defined', 'C02_x691_defined_on_values', 'C02_writer_is_X691', 'C02_reader_accepts_X691', 'C02_not_a_value_rejected', 'C02_not_a_value_not_encoded', 'C02_writer_exact', 'C02_known_C01_inside', 'C02_deviates_means', 'C02_refuted_size_upper_bound_64k', 'C02_refuted_fragmentation_16k', 'C02_refuted_empty_open_type', 'C02_refuted_mandatory_choice_addition_inline', 'C02_refuted_more_than_64_additions', 'C02_refuted_first_addition_absent', 'C02_refuted_int_beyond_i64', 'C02_refuted_open_type_16k_reader']
     builds = [("default", "dev"), ("default", "release")]
     timeout_per_chunk = 600
     xcheck_n = 60
